@@ -197,30 +197,35 @@ Proof.
     rewrite Es2. reflexivity.
 Qed.
 
-(** payload_info on a strict item that spans the input *)
-Lemma pi_run hdr d : rlp_shape true hdr d -> lenZ (hdr ++ d) < USIZE ->
-  payload_info (hdr ++ d) = Ok (lenZ hdr, lenZ d).
+(** payload_info on a strict item (whatever follows it) *)
+Lemma pi_run_rest hdr d rest : rlp_shape true hdr d -> lenZ (hdr ++ d ++ rest) < USIZE ->
+  payload_info (hdr ++ d ++ rest) = Ok (lenZ hdr, lenZ d).
 Proof.
-  intros Hs Hl. destruct Hs as [(-> & l & -> & Hl127) | [(-> & H55 & Hnb) | (lb & -> & Hne & H8 & Hn0 & Hbv & Hst)]].
-  - cbn [app]. unfold payload_info, payload_from. rewrite leb_true by assumption. reflexivity.
+  intros Hs Hl. pose proof (lenZ_nonneg rest) as Hrest.
+  destruct Hs as [(-> & l & -> & Hl127) | [(-> & H55 & Hnb) | (lb & -> & Hne & H8 & Hn0 & Hbv & Hst)]].
+  - cbn [app] in *. unfold payload_info, payload_from. rewrite leb_true by assumption. cbn [bind fst snd].
+    rewrite lenZ_cons in *. rewrite ltb_true by lia. rewrite leb_true by lia. reflexivity.
   - pose proof (lenZ_nonneg d) as Hd. cbn [app] in *. unfold payload_info, payload_from.
     rewrite leb_false by lia. rewrite leb_true by lia. cbn [bind fst snd].
-    rewrite lenZ_cons in *. replace (128 + lenZ d - 128) with (lenZ d) by lia.
+    rewrite lenZ_cons, lenZ_app in *. replace (128 + lenZ d - 128) with (lenZ d) by lia.
     rewrite ltb_true by lia. rewrite leb_true by lia. cbn [andb]. reflexivity.
   - specialize (Hst eq_refl). pose proof (lenZ_nonneg d) as Hd.
     assert (1 <= lenZ lb). { destruct lb; [contradiction|]. rewrite lenZ_cons. pose proof (lenZ_nonneg lb). lia. }
-    cbn [app] in *. rewrite lenZ_cons, lenZ_app in Hl. unfold payload_info, payload_from.
+    cbn [app] in *. rewrite lenZ_cons, !lenZ_app in Hl. unfold payload_info, payload_from.
     rewrite leb_false by lia. rewrite leb_false by lia. rewrite leb_true by lia.
     replace (183 + lenZ lb - 183) with (lenZ lb) by lia. unfold calculate_payload_info.
     destruct lb as [|b1 lb']; [contradiction|]. cbn [no_lead0] in Hn0. cbn [app]. rewrite eqb_false by assumption.
-    rewrite !lenZ_cons, lenZ_app in *. pose proof (lenZ_nonneg lb'). rewrite ltb_false by lia.
-    assert (Es : slice (183 + (1 + lenZ lb') :: b1 :: lb' ++ d) 1 (1 + (1 + lenZ lb')) = b1 :: lb').
-    { rewrite slice_cons by lia. change (b1 :: lb' ++ d) with ((b1 :: lb') ++ d). apply firstn_app_len.
+    rewrite !lenZ_cons, !lenZ_app in *. pose proof (lenZ_nonneg lb'). rewrite ltb_false by lia.
+    assert (Es : slice (183 + (1 + lenZ lb') :: b1 :: lb' ++ d ++ rest) 1 (1 + (1 + lenZ lb')) = b1 :: lb').
+    { rewrite slice_cons by lia. change (b1 :: lb' ++ d ++ rest) with ((b1 :: lb') ++ d ++ rest). apply firstn_app_len.
       cbn [length]. unfold lenZ. lia. }
     rewrite Es. rewrite decode_usize_ok; [|discriminate|exact Hn0|rewrite lenZ_cons; lia]. cbn [bind].
     rewrite Hbv. rewrite leb_false by lia. cbn [bind fst snd].
     rewrite ltb_true by lia. rewrite leb_true by lia. reflexivity.
 Qed.
+Lemma pi_run hdr d : rlp_shape true hdr d -> lenZ (hdr ++ d) < USIZE ->
+  payload_info (hdr ++ d) = Ok (lenZ hdr, lenZ d).
+Proof. intros Hs Hl. pose proof (pi_run_rest hdr d [] Hs) as H. rewrite app_nil_r in H. apply H. assumption. Qed.
 
 (** an item of strict shape whose payload has no leading zero is the canonical encoding of its value *)
 Lemma shape_canonical hdr d : wfd 256 d -> no_lead0 d -> rlp_shape true hdr d ->
@@ -436,15 +441,6 @@ Proof.
   - exfalso. exact (rlp_decode_nopn true n bs E).
 Qed.
 
-Lemma lenZ_rlp_encode_le x k : 0 <= x < 256 ^ k -> 0 <= k -> lenZ (sp_rlp_encode x) <= 9 + k.
-Proof.
-  intros Hx Hk. destruct (payload_spec x ltac:(lia)) as (_ & _ & _ & Hlp). unfold sp_rlp_encode. rewrite lenZ_app, Hlp.
-  pose proof (sp_octets_le x k ltac:(lia) Hk ltac:(lia)). pose proof (sp_octets_nonneg x). unfold sp_rlp_header.
-  destruct (x =? 0); [unfold lenZ; cbn [length]; lia|]. destruct (x <? 128); [unfold lenZ; cbn [length]; lia|].
-  destruct (sp_octets x <=? 55); [unfold lenZ; cbn [length]; lia|]. rewrite lenZ_cons, lenZ_sp_be by apply sp_octets_nonneg.
-  assert (sp_octets (sp_octets x) <= 8); [|lia]. 
-  (* not needed in general; bound it by the size of k when k is small *)
-Abort.
 
 Lemma lenZ_rlp_encode_le x K : 0 <= K < 4294967296 -> 0 <= x < 256 ^ K -> lenZ (sp_rlp_encode x) <= K + 5.
 Proof.
@@ -483,4 +479,24 @@ Proof.
   exists (sp_rlp_header (eval ls)), (sp_rlp_payload (eval ls)). repeat split; try assumption.
   apply spec_shape; [lia|]. rewrite Bn_256_Z in Hx.
   pose proof (sp_octets_le (eval ls) (Z.of_nat (8 * length ls)) ltac:(lia) ltac:(lia) ltac:(lia)). unfold USIZE. lia.
+Qed.
+
+(* ---------------------------------------------------------------- Rlp::val_at(0): the first item of a list payload *)
+Theorem rlp_decode_item_nopn fx n bs : rlp_decode_item fx n bs <> Pn.
+Proof. unfold rlp_decode_item. apply bind_nopn; [apply payload_info_nopn | intros; apply rlp_decode_nopn]. Qed.
+Lemma payload_info_total bs hl vl : payload_info bs = Ok (hl, vl) -> hl + vl <= lenZ bs.
+Proof.
+  unfold payload_info. intros H. inv_bind H. destruct ((fst a + snd a <? USIZE) && (fst a + snd a <=? lenZ bs)) eqn:E; [|discriminate].
+  apply ok_inj in H. subst a. cbn [fst snd] in E. apply andb_prop in E. destruct E as [_ E]. apply Z.leb_le in E. assumption.
+Qed.
+(** a canonical item followed by anything: val_at cuts it out and decodes it *)
+Theorem rlp_decode_item_run fx n x rest : 0 <= x -> lenZ (sp_rlp_encode x ++ rest) < USIZE ->
+  rlp_decode_item fx n (sp_rlp_encode x ++ rest) = rlp_decode fx n (sp_rlp_encode x).
+Proof.
+  intros Hx Hl. destruct (payload_spec x Hx) as (Hwp & Hnp & Hbp & Hlp).
+  assert (Hu : sp_octets x < USIZE).
+  { unfold sp_rlp_encode in Hl. rewrite !lenZ_app, Hlp in Hl. pose proof (lenZ_nonneg (sp_rlp_header x)). pose proof (lenZ_nonneg rest). lia. }
+  pose proof (spec_shape x Hx Hu) as Hs. unfold rlp_decode_item, sp_rlp_encode in *. rewrite <- app_assoc in *.
+  rewrite pi_run_rest by assumption. cbn [bind fst snd]. rewrite <- lenZ_app. unfold lenZ at 1. rewrite Nat2Z.id.
+  rewrite app_assoc. rewrite firstn_app_len by reflexivity. reflexivity.
 Qed.
